@@ -13,6 +13,8 @@ package cmd
 // and stops with a non-zero status otherwise
 //@ func check
 //@   assert [no-error-no-exit] {C20} errorsCount == 0 && errorsCount == errorsOf(res.Diagnostics)
+//@   loop 1
+//@     assert [printed-at-its-position] {C20} printedis(0, path) && printedis(1, d.Range.Start.Line) && printedis(2, d.Range.Start.Character) && printedis(3, errType)
 
 // `numscript run`: returns normally only when parsing and execution both succeeded
 //@ func run
